@@ -1435,8 +1435,15 @@ impl<R: Read> Base64Decoder<R> {
             self.buffer_size = 0;
         }
         while self.buffer_size + 3 <= self.buffer.len() {
+            // reader is allowed to return less than requested, fill whole quartet
             let mut input = [0u8; 4];
-            let size = self.read.read(&mut input)?;
+            let mut size = 0;
+            while size < input.len() {
+                match self.read.read(&mut input[size..])? {
+                    0 => break,
+                    count => size += count,
+                }
+            }
             if size == 0 {
                 break;
             } else if size != 4 {
